@@ -172,6 +172,9 @@ func randomScenario(mode string, rng *rand.Rand, k int) scenario {
 		if rng.Intn(3) == 0 {
 			sc.Partial = true
 			sc.Isolate = len(sc.Byz) > 0 && rng.Intn(2) == 0
+		} else if len(sc.Byz) > 0 && rng.Intn(2) == 0 {
+			sc.Tamper = true
+			sc.Isolate = rng.Intn(2) == 0
 		}
 	}
 	sc.RebroadcastAfterRound = []int{-1, 0, 1}[rng.Intn(3)]
